@@ -140,7 +140,7 @@ Qed.
 (* ---------- room: no uint64 wrap-around while the rows are processed ---------- *)
 (* K = slack kept for whatever is processed afterwards *)
 Definition room (K g : N) (rows : list row) : Prop :=
-  g + N.of_nat (length rows) + K < two64 /\ Forall (fun r => r_id r + N.of_nat (length rows) + K < two64) rows.
+  g + N.of_nat (length rows) + K < two64 /\ Forall (fun r => r_id r + 1 + N.of_nat (length rows) + K < two64) rows.
 
 Lemma room_tail_next K g r t : room K g (r :: t) -> room K (u64 (g + 1)) t.
 Proof.
@@ -170,10 +170,40 @@ Proof.
   eapply Forall_impl; [|exact B]. cbn. intros a Ha. lia.
 Qed.
 
-Lemma room_app_r K g l1 l2 : room K g (l1 ++ l2) -> Forall (fun r => r_id r + N.of_nat (length l2) + K < two64) l2.
+Lemma room_app_r K g l1 l2 : room K g (l1 ++ l2) -> Forall (fun r => r_id r + 1 + N.of_nat (length l2) + K < two64) l2.
 Proof.
   intros [A B]. rewrite app_length in *. apply Forall_app in B. destruct B as [_ B].
   eapply Forall_impl; [|exact B]. cbn. intros a Ha. lia.
+Qed.
+
+(* ---------- the pre-pass over explicit IDs (repair of F43) ---------- *)
+Lemma presync_spec pp L : forall rows g,
+  Forall (fun r => r_id r + 1 + L < two64) rows -> g + L < two64 ->
+  g <= presync_gen pp g rows /\ presync_gen pp g rows + L < two64
+  /\ (pp = true -> Forall (fun r => is_raw (r_id r) = false -> r_id r <> 0 -> r_id r < presync_gen pp g rows) rows).
+Proof.
+  unfold presync_gen. destruct pp; [|intros rows g _ H; split; [lia|split; [exact H|discriminate]]].
+  induction rows as [|r t IH]; intros g F H; cbn [fold_left].
+  - split; [lia|]. split; [exact H|]. intros _. constructor.
+  - inversion F as [|? ? Fr Ft]; subst.
+    set (g' := if is_raw (r_id r) || (r_id r =? 0) then g else update_on_sync g (r_id r)).
+    assert (G : g <= g' /\ g' + L < two64 /\ (is_raw (r_id r) = false -> r_id r <> 0 -> r_id r < g')).
+    { unfold g'. destruct (is_raw (r_id r)) eqn:R; cbn [orb]; [split; [lia|split; [exact H|discriminate]]|].
+      destruct (N.eqb_spec (r_id r) 0) as [Z|NZ]; [split; [lia|split; [exact H|congruence]]|].
+      assert (I1 : r_id r + 1 < two64) by lia. destruct (update_on_sync_ge g (r_id r) I1) as [U1 U2].
+      split; [exact U1|]. split; [|intros _ _; exact U2].
+      rewrite update_on_sync_spec by exact I1. destruct (g <=? r_id r); lia. }
+    destruct G as (G1 & G2 & G3). destruct (IH g' Ft G2) as (A & B & C).
+    split; [lia|]. split; [exact B|]. intros _. constructor; [|exact (C eq_refl)].
+    intros R NZ. specialize (G3 R NZ). lia.
+Qed.
+
+Lemma presync_room K g rows : room K g rows -> room K (presync g rows) rows.
+Proof.
+  intros [A B]. destruct (presync_spec c04_sync_prepass (N.of_nat (length rows) + K) rows g) as (_ & C & _).
+  - eapply Forall_impl; [|exact B]. cbn. intros; lia.
+  - lia.
+  - split; [unfold presync; lia|exact B].
 Qed.
 
 (* ---------- first pass over the argument tree ---------- *)
@@ -347,6 +377,7 @@ Record valid_facts (ev : event) : Prop := {
   vf_raw : e_sync ev = false -> Forall (fun r => is_raw (r_id r) = true) (e_arg ev ++ e_creates ev);
   vf_upd : Forall (fun r => is_raw (r_id r) = false) (e_updates ev);
   vf_nodup : NoDup (all_ids ev);
+  vf_singles : NoDup (filter (fun s => negb (s =? 0)) (map r_single (e_creates ev)));
   vf_parent : Forall (fun r => val_known (ids (e_arg ev)) (r_parent r)) (e_arg ev);
   vf_argrefs : Forall (fun r => Forall (val_known (ids (e_arg ev))) (r_refs r)) (e_arg ev);
   vf_cudvals : Forall (fun r => Forall (val_known (all_ids ev)) (row_vals r)) (e_creates ev ++ e_updates ev) }.
@@ -358,6 +389,7 @@ Proof.
   - intros S. rewrite S in B. cbn in B. apply forallb_Forall in B. exact B.
   - apply forallb_Forall in C. eapply Forall_impl; [|exact C]. cbn. intros r Hr. apply negb_true_iff in Hr. exact Hr.
   - apply nodupb_NoDup. exact D.
+  - apply nodupb_NoDup. exact E.
   - apply forallb_Forall in F. eapply Forall_impl; [|exact F]. cbn. intros r Hr.
     apply orb_true_iff in Hr. destruct Hr as [Z|M]; [left; apply N.eqb_eq; exact Z | right; left; apply memb_In; exact M].
   - apply forallb_Forall in G. eapply Forall_impl; [|exact G]. cbn. intros r Hr.
@@ -432,6 +464,9 @@ Record passes (g' : N) (ev' : event) (rep : list (N * N)) (pa pc : plan) (g1 : N
   ps_keys_a : map fst pa = raw_ids (e_arg ev);
   ps_keys_c : map fst pc = raw_ids (e_creates ev);
   ps_chain_a : chain g (map snd pa) g1;
+  ps_chain_a0 : chain (presync g (e_arg ev ++ e_creates ev)) (map snd pa) g1;
+  ps_expl0 : c04_sync_prepass = true ->
+             Forall (fun r => is_raw (r_id r) = false -> r_id r <> 0 -> r_id r < presync g (e_arg ev ++ e_creates ev)) (e_arg ev ++ e_creates ev);
   ps_chain_c : chain g1 (map snd repc) g';
   ps_arg : e_arg ev' = map (fun r => rewrite_arg pa (assigned pa r)) (e_arg ev);
   ps_creates : e_creates ev' = map (fun r => map_row (sub_cud ((if ps then pa else []) ++ pc)) (assigned pc r)) (e_creates ev);
@@ -446,17 +481,28 @@ Lemma regenerate_passes g' ev' rep :
   regenerate_gen au ps g ev = (g', ev', rep) -> exists pa pc g1 repc, passes g' ev' rep pa pc g1 repc.
 Proof.
   unfold regenerate_gen. intros E.
-  destruct (arg_assign au g (e_arg ev)) as [[g1 arg1] pa] eqn:EA.
+  set (g0 := presync g (e_arg ev ++ e_creates ev)) in *.
+  destruct (arg_assign au g0 (e_arg ev)) as [[g1 arg1] pa] eqn:EA.
   destruct (cud_assign g1 (e_creates ev)) as [[[g2 cr1] pc] repc] eqn:EC.
   inversion E; subst; clear E.
-  pose proof (room_app _ _ _ _ Hroom) as RA.
+  pose proof (presync_room _ _ _ Hroom) as Hroom0. fold g0 in Hroom0.
+  assert (G0 : g <= g0 /\ (c04_sync_prepass = true ->
+             Forall (fun r => is_raw (r_id r) = false -> r_id r <> 0 -> r_id r < g0) (e_arg ev ++ e_creates ev))).
+  { destruct Hroom as [A B].
+    destruct (presync_spec c04_sync_prepass (N.of_nat (length (e_arg ev ++ e_creates ev)) + K) (e_arg ev ++ e_creates ev) g) as (X & _ & Y).
+    - eapply Forall_impl; [|exact B]. cbn. intros; lia.
+    - lia.
+    - split; [exact X|exact Y]. }
+  destruct G0 as [G0 EX0].
+  pose proof (room_app _ _ _ _ Hroom0) as RA.
   destruct (arg_assign_spec au _ _ _ _ _ _ EA RA nodup_arg) as (B1 & KA & CA & ROWSA & EXA).
   assert (RC : room K g1 (e_creates ev)).
-  { split; [lia|]. apply (room_app_r _ _ _ _ Hroom). }
+  { split; [lia|]. apply (room_app_r _ _ _ _ Hroom0). }
   destruct (cud_assign_spec K _ _ _ _ _ _ EC RC nodup_creates) as (B2 & KC & CC & ROWSC & EXC & REP & SING).
-  exists pa, pc, g1, repc. constructor; cbn; auto.
-  - rewrite ROWSA, map_map. reflexivity.
-  - rewrite ROWSC, map_map. reflexivity.
+  exists pa, pc, g1, repc. constructor; cbn; auto;
+    try (eapply chain_weaken; [exact G0|exact CA]);
+    try (rewrite ROWSA, map_map; reflexivity); try (rewrite ROWSC, map_map; reflexivity);
+    try exact CA; try exact EX0.
 Qed.
 
 Section Passes.
@@ -1076,9 +1122,175 @@ Proof.
 Qed.
 
 Definition roomb (K g : N) (rows : list row) : bool :=
-  (g + N.of_nat (length rows) + K <? two64) && forallb (fun r => r_id r + N.of_nat (length rows) + K <? two64) rows.
+  (g + N.of_nat (length rows) + K <? two64) && forallb (fun r => r_id r + 1 + N.of_nat (length rows) + K <? two64) rows.
 Lemma roomb_sound K g rows : roomb K g rows = true -> room K g rows.
 Proof.
   unfold roomb, room. rewrite andb_true_iff. intros [A B]. split; [lia|].
   apply forallb_Forall in B. eapply Forall_impl; [|exact B]. cbn. intros; lia.
+Qed.
+
+(* ====================================================================================== *)
+(* part 4: the rows written by one event carry pairwise distinct IDs (F43)                 *)
+(* ====================================================================================== *)
+(* explicit IDs chosen by a sync client lie above the singleton band ... *)
+Definition explicit_above_singletons (ev : event) : Prop :=
+  Forall (fun r => is_raw (r_id r) = false -> c04_max_singleton_id < r_id r) (e_arg ev ++ e_creates ev).
+(* ... and (only needed while the generator is not moved past them before the first NextID) below the generator *)
+Definition explicit_below (g : N) (ev : event) : Prop :=
+  Forall (fun r => is_raw (r_id r) = false -> r_id r < g) (e_arg ev ++ e_creates ev).
+
+Lemma NoDup_map_inj_in {A B} (f : A -> B) l :
+  (forall a b, In a l -> In b l -> f a = f b -> a = b) -> NoDup l -> NoDup (map f l).
+Proof.
+  intros INJ ND. induction ND as [|x t NI ND IH]; cbn; [constructor|]. constructor.
+  - intros I. apply in_map_iff in I. destruct I as [y [E I]].
+    assert (y = x) by (apply INJ; [right; exact I|left; reflexivity|exact E]). subst. contradiction.
+  - apply IH. intros a b Ia Ib. apply INJ; right; assumption.
+Qed.
+
+Lemma NoDup_app_swap {T} (a b : list T) : NoDup (a ++ b) -> NoDup (b ++ a).
+Proof.
+  intros H. pose proof (NoDup_app_l _ _ H) as Ha. pose proof (NoDup_app_r _ _ H) as Hb.
+  induction b as [|y b IH]; cbn; [exact Ha|].
+  inversion Hb as [|? ? NIy NDb]; subst. constructor.
+  - intros I. apply in_app_or in I. destruct I as [I|I]; [contradiction|].
+    exact (NoDup_app_disj _ _ y H I (or_introl eq_refl)).
+  - apply IH; [|exact NDb].
+    clear IH. induction a as [|x a IHa]; cbn in *; [exact NDb|].
+    inversion H as [|? ? NIx NDx]; subst. inversion Ha; subst. constructor.
+    + intros I. apply NIx. apply in_app_or in I. apply in_or_app. destruct I as [I|I]; [left; exact I|right; right; exact I].
+    + apply IHa; assumption.
+Qed.
+
+Lemma nodup_snd_inj (l : list (N * N)) a b v : NoDup (map snd l) -> In (a, v) l -> In (b, v) l -> a = b.
+Proof.
+  induction l as [|[k x] t IH]; cbn; intros ND Ia Ib; [contradiction|].
+  inversion ND as [|? ? NI ND']; subst. destruct Ia as [Ea|Ia]; destruct Ib as [Eb|Ib].
+  - congruence.
+  - inversion Ea; subst. exfalso. apply NI. apply (in_map snd) in Ib. exact Ib.
+  - inversion Eb; subst. exfalso. apply NI. apply (in_map snd) in Ia. exact Ia.
+  - eapply IH; eassumption.
+Qed.
+
+Lemma singles_inj l r r' :
+  NoDup (filter (fun s => negb (s =? 0)) (map r_single l)) -> In r l -> In r' l ->
+  r_single r = r_single r' -> r_single r <> 0 -> r = r'.
+Proof.
+  induction l as [|x t IH]; cbn; intros ND I I' E NZ; [contradiction|].
+  assert (MEM : forall y, In y t -> r_single y <> 0 -> In (r_single y) (filter (fun s => negb (s =? 0)) (map r_single t))).
+  { intros y Iy NZy. apply filter_In. split; [apply in_map; exact Iy|]. apply negb_true_iff. apply N.eqb_neq. exact NZy. }
+  destruct (N.eqb_spec (r_single x) 0) as [Z|NZx]; cbn [negb] in ND.
+  - destruct I as [<-|I]; [congruence|]. destruct I' as [<-|I']; [congruence|]. apply IH; assumption.
+  - inversion ND as [|? ? NI ND']; subst. destruct I as [<-|I]; destruct I' as [<-|I'].
+    + reflexivity.
+    + exfalso. apply NI. rewrite E. apply MEM; [exact I'|congruence].
+    + exfalso. apply NI. rewrite <- E. apply MEM; [exact I|exact NZ].
+    + apply IH; assumption.
+Qed.
+
+Theorem stored_ids_distinct_proved : forall au ps g ev g' ev' rep,
+  valid ev = true -> Forall single_ok (e_creates ev) -> c04_first_user_id <= g ->
+  room 0 g (e_arg ev ++ e_creates ev) ->
+  explicit_above_singletons ev ->
+  c04_sync_prepass = true \/ explicit_below g ev ->
+  regenerate_gen au ps g ev = (g', ev', rep) ->
+  NoDup (event_ids ev').
+Proof.
+  intros au ps g ev g' ev' rep Hv Hs Hg Hr HAS HPP E.
+  destruct (regenerate_passes au ps 0 g ev Hv Hg Hr g' ev' rep E) as (pa & pc & g1 & repc & P).
+  pose proof (valid_spec ev Hv) as VF.
+  set (g0 := presync g (e_arg ev ++ e_creates ev)).
+  set (m := mu pa pc).
+  pose proof (ps_chain_a0 _ _ _ _ _ _ _ _ _ _ _ _ P) as CA0. fold g0 in CA0.
+  pose proof (ps_chain_c _ _ _ _ _ _ _ _ _ _ _ _ P) as CC.
+  assert (G01 : g <= g0 /\ g0 <= g1 /\ g1 <= g').
+  { pose proof (chain_le _ _ _ CA0). pose proof (chain_le _ _ _ CC).
+    destruct Hr as [A B].
+    destruct (presync_spec c04_sync_prepass (N.of_nat (length (e_arg ev ++ e_creates ev)) + 0) (e_arg ev ++ e_creates ev) g) as (X & _ & _);
+      [eapply Forall_impl; [|exact B]; cbn; intros; lia | lia | ]. fold (presync g (e_arg ev ++ e_creates ev)) in X. fold g0 in X. lia. }
+  assert (REPND : NoDup (map snd rep)).
+  { rewrite (ps_rep _ _ _ _ _ _ _ _ _ _ _ _ P), map_app. eapply chain_NoDup. eapply chain_app; [exact CA0|exact CC]. }
+  (* the stored IDs are the images of the declared IDs under m *)
+  assert (IDS : event_ids ev' = map m (ids (e_creates ev) ++ ids (e_arg ev))).
+  { unfold event_ids. rewrite map_app. f_equal.
+    - rewrite (ps_creates _ _ _ _ _ _ _ _ _ _ _ _ P). unfold ids. rewrite !map_map. apply map_ext_in. intros r I.
+      rewrite (stored_create_id au ps 0 g ev Hv Hs Hg g' ev' rep pa pc g1 repc P r I).
+      symmetry. apply (mu_create_id au ps 0 g ev g' ev' rep pa pc g1 repc P). unfold ids. apply in_map. exact I.
+    - rewrite (ps_arg _ _ _ _ _ _ _ _ _ _ _ _ P). unfold ids. rewrite !map_map. apply map_ext_in. intros r I.
+      rewrite (stored_arg_id au ps 0 g ev Hv Hg g' ev' rep pa pc g1 repc P r I).
+      symmetry. apply (mu_arg_id au ps 0 g ev Hv g' ev' rep pa pc g1 repc P). unfold ids. apply in_map. exact I. }
+  rewrite IDS. apply NoDup_map_inj_in.
+  2:{ pose proof (vf_nodup _ VF) as ND. unfold all_ids in ND. rewrite app_assoc in ND. apply NoDup_app_l in ND.
+      apply NoDup_app_swap. exact ND. }
+  (* classification of a declared ID *)
+  assert (CLS : forall d, In d (ids (e_creates ev) ++ ids (e_arg ev)) ->
+      (g0 <= m d /\ In (d, m d) rep)
+      \/ (exists r, In r (e_creates ev) /\ r_id r = d /\ r_single r <> 0 /\ m d = r_single r /\ r_single r <= c04_max_singleton_id)
+      \/ (is_raw d = false /\ m d = d /\ c04_max_singleton_id < d /\ d < g0)).
+  { intros d I.
+    assert (EXPL : forall r, In r (e_arg ev ++ e_creates ev) -> is_raw (r_id r) = false ->
+                   m (r_id r) = r_id r /\ c04_max_singleton_id < r_id r /\ r_id r < g0).
+    { intros r Ir R. split; [apply mu_not_raw; exact R|]. unfold explicit_above_singletons in HAS. rewrite Forall_forall in HAS.
+      split; [apply HAS; assumption|].
+      pose proof (vf_nonnull _ VF) as NN. rewrite Forall_forall in NN.
+      destruct HPP as [PP|BL].
+      - pose proof (ps_expl0 _ _ _ _ _ _ _ _ _ _ _ _ P PP) as EX. rewrite Forall_forall in EX. apply EX; auto.
+      - unfold explicit_below in BL. rewrite Forall_forall in BL. specialize (BL r Ir R). lia. }
+    apply in_app_or in I. destruct I as [I|I]; unfold ids in I; apply in_map_iff in I; destruct I as [r [<- I]].
+    - destruct (is_raw (r_id r)) eqn:R.
+      + unfold m. rewrite (mu_create_id au ps 0 g ev g' ev' rep pa pc g1 repc P) by (unfold ids; apply in_map; exact I).
+        destruct (pc_value au ps 0 g ev g' ev' rep pa pc g1 repc P r I R) as [(Z & A & B & IN)|(NZ & EQ)].
+        * left. split; [lia|]. rewrite (ps_rep _ _ _ _ _ _ _ _ _ _ _ _ P). apply in_or_app. right. exact IN.
+        * right. left. exists r. rewrite Forall_forall in Hs. destruct (Hs r I) as [Z|[_ S2]]; [congruence|]. auto.
+      + right. right. destruct (EXPL r (in_or_app _ _ _ (or_intror I)) R) as (A & B & C). auto.
+    - destruct (is_raw (r_id r)) eqn:R.
+      + left. assert (IA : In (r_id r) (ids (e_arg ev))) by (unfold ids; apply in_map; exact I).
+        unfold m. rewrite (mu_arg_id au ps 0 g ev Hv g' ev' rep pa pc g1 repc P _ IA).
+        assert (IN : In (r_id r, sub_cud pa (r_id r)) pa).
+        { unfold sub_cud. rewrite R. destruct (plan_get pa (r_id r)) eqn:PG; [apply plan_get_some_in; exact PG|].
+          exfalso. apply plan_get_none in PG. apply PG. rewrite (ps_keys_a _ _ _ _ _ _ _ _ _ _ _ _ P).
+          apply raw_ids_In. split; assumption. }
+        split.
+        * pose proof (in_map snd _ _ IN) as IS. cbn in IS. exact (proj1 (chain_bounds _ _ _ CA0 _ IS)).
+        * rewrite (ps_rep _ _ _ _ _ _ _ _ _ _ _ _ P). apply in_or_app. left. exact IN.
+      + right. right. destruct (EXPL r (in_or_app _ _ _ (or_introl I)) R) as (A & B & C). auto. }
+  pose proof layout_singletons_reserved as [LS1 LS2].
+  intros a b Ia Ib EQ.
+  destruct (CLS a Ia) as [[A1 A2]|[[ra (A1 & A2 & A3 & A4 & A5)]|(A1 & A2 & A3 & A4)]];
+  destruct (CLS b Ib) as [[B1 B2]|[[rb (B1 & B2 & B3 & B4 & B5)]|(B1 & B2 & B3 & B4)]]; try lia.
+  - rewrite EQ in A2. exact (nodup_snd_inj rep a b (m b) REPND A2 B2).
+  - assert (ra = rb).
+    { apply (singles_inj (e_creates ev)); [exact (vf_singles _ VF)|assumption|assumption|congruence|exact A3]. }
+    subst. congruence.
+Qed.
+
+Definition explicit_above_singletonsb (ev : event) : bool :=
+  forallb (fun r => is_raw (r_id r) || (c04_max_singleton_id <? r_id r)) (e_arg ev ++ e_creates ev).
+Lemma explicit_above_singletonsb_sound ev : explicit_above_singletonsb ev = true -> explicit_above_singletons ev.
+Proof.
+  unfold explicit_above_singletonsb, explicit_above_singletons. intros H. apply forallb_Forall in H.
+  eapply Forall_impl; [|exact H]. cbn. intros r A R. lia.
+Qed.
+Definition explicit_belowb (g : N) (ev : event) : bool :=
+  forallb (fun r => is_raw (r_id r) || (r_id r <? g)) (e_arg ev ++ e_creates ev).
+Lemma explicit_belowb_sound g ev : explicit_belowb g ev = true -> explicit_below g ev.
+Proof.
+  unfold explicit_belowb, explicit_below. intros H. apply forallb_Forall in H.
+  eapply Forall_impl; [|exact H]. cbn. intros r A R. lia.
+Qed.
+
+(* after any history: the rows one accepted event writes carry pairwise distinct IDs *)
+Theorem stored_ids_distinct_hist_proved : forall au ps h ws ev w' ev' rep,
+  bounded (h ++ [IEvent ws ev]) -> singles_ok (h ++ [IEvent ws ev]) ->
+  explicit_above_singletons ev ->
+  c04_sync_prepass = true \/ explicit_below (w_next (run_gen au ps st_init h ws)) ev ->
+  step_event_gen au ps (run_gen au ps st_init h ws) ev = (w', Accepted ev' rep) ->
+  NoDup (event_ids ev').
+Proof.
+  intros au ps h ws ev w' ev' rep HB HS HX HP E.
+  destruct (reach au ps h ws ev HB HS) as (I & B & S & _). set (w := run_gen au ps st_init h ws) in *.
+  destruct (step_event_accepts au ps w ev _ _ _ E) as (Hv & RG & _).
+  rewrite <- (N.add_0_r (N.of_nat (ev_rows ev))) in I.
+  pose proof (step_room 0 w ev I B) as RM. destruct I as (A & _ & _).
+  exact (stored_ids_distinct_proved au ps (w_next w) ev _ ev' rep Hv S A RM HX HP RG).
 Qed.
